@@ -24,6 +24,7 @@ type dmgObs struct {
 type c09Case struct {
 	KVs      []tblKV `json:"kvs"`
 	DataComp int     `json:"dcomp"`
+	Loader   string  `json:"loader"`
 	OnRead   bool    `json:"on_read"` // SkipHashCheckOnLoad + EnableHashCheckOnReads instead of the default verify-on-load
 	Vals     []int   `json:"vals"`    // replacement values; -1 = flip lowest bit, -2 = flip highest bit
 	// observations
@@ -37,6 +38,9 @@ type c09Case struct {
 func (c *c09Case) observe(dir string, data []byte, ob *dmgObs) {
 	must(os.WriteFile(filepath.Join(dir, sstables.DataFileName), data, 0644))
 	opts := []sstables.ReadOption{sstables.ReadBasePath(dir)}
+	if c.Loader != "" && c.Loader != "slice" {
+		opts = append(opts, sstables.ReadIndexLoader(loaderFor(c.Loader, 4096)))
+	}
 	if c.OnRead {
 		opts = append(opts, sstables.SkipHashCheckOnLoad(), sstables.EnableHashCheckOnReads())
 	}
@@ -183,7 +187,7 @@ func (c *c09Case) Oracle() (bool, string) {
 }
 
 func (c *c09Case) Sx() string {
-	if c.Fatal != "" || c.DataComp != 0 {
+	if c.Fatal != "" || c.DataComp != 0 || (c.Loader != "" && c.Loader != "slice") {
 		return ""
 	}
 	var obs []string
@@ -221,7 +225,7 @@ func (c *c09Case) Kind() string {
 	if c.OnRead {
 		m = "onread"
 	}
-	return fmt.Sprintf("dcomp=%d/%s/keys=%s", c.DataComp, m, bucket(len(c.KVs)))
+	return fmt.Sprintf("dcomp=%d/%s/%s/keys=%s", c.DataComp, m, c.Loader, bucket(len(c.KVs)))
 }
 
 func genC09(r *rand.Rand, tier string) []Case {
@@ -231,7 +235,7 @@ func genC09(r *rand.Rand, tier string) []Case {
 	}
 	var cases []Case
 	for i := 0; i < n; i++ {
-		c := &c09Case{DataComp: []int{0, 2, 0, 1, 0, 3, 0, 2}[i%8], OnRead: i%2 == 1}
+		c := &c09Case{DataComp: []int{0, 2, 0, 1, 0, 3, 0, 2}[i%8], OnRead: i%2 == 1, Loader: []string{"slice", "map20", "slice", "skiplist", "slice", "disk", "slice", "map20"}[i%8]}
 		c.Vals = []int{-1, -2, 0x00, 0xff, 0x91, 0x4c}
 		if tier == "thorough" && i%20 == 0 {
 			c.Vals = nil
